@@ -161,6 +161,15 @@ CHECKS = {
         note='Trusted base: rtverif/ref_bool.py (shares the temporal evaluator with the quantitative reference, '
              'predicates mapped to +-1 with strictness).',
         ref='DESIGN.md §7 C07'),
+    'C20': dict(
+        technique='brute-force sufficiency monitor: after evaluate()+explain() on the real spec, the non-reported '
+                  '(variable, sample) positions are re-assigned over a finite decisive value domain (exhaustively when '
+                  'small) and every candidate is judged by the reference and confirmed with the real evaluate()',
+        text='Exploration over the explainer fragment x short traces; exhaustive over the finite domain for cases '
+             'with <=3000 combinations, sampled otherwise. An under-approximation of "all re-assignments".',
+        note='Trusted base: ref_discrete.py as fast judge (every counter-example is confirmed with the real '
+             'monitor), the domain construction in props/c20.py.',
+        ref='DESIGN.md §7 C20'),
 }
 
 NOT_APPLICABLE = {}
